@@ -579,7 +579,7 @@ REGISTRY = {
     "C09": Spec("FFSM2.Props.C09", ["ids", "config"], machine_run("C09", ("random", "planveto", "reactivate", "statusfirst")), extra=("FFSM2.Props.History", "FFSM2.Props.OutcomesHistory")),
     "C11": Spec("FFSM2.Props.C11", ["ids"], machine_run("C11", ("random", "replica")), extra=("FFSM2.Props.History", "FFSM2.Props.OutcomeHistory")),
     "C12": Spec("FFSM2.Props.C12", ["ids", "serial", "bitwidth", "contain", "typebits", "buffers"], c12_run, extra=("FFSM2.Props.History",)),
-    "C16": Spec("FFSM2.Props.C16", ["ids"], machine_run("C16"), extra=("FFSM2.Props.History", "FFSM2.Props.RecordsHistory")),
+    "C16": Spec("FFSM2.Props.C16", ["ids"], machine_run("C16"), extra=("FFSM2.Props.History", "FFSM2.Props.RecordsHistory", "FFSM2.Props.ActRecordsHistory")),
     "C17": Spec("FFSM2.Props.C17", ["ids"], c17_run, extra=("FFSM2.Props.History",)),
 }
 
